@@ -68,6 +68,7 @@ type VC struct {
 	witness map[string]string // human name -> term (entry-state values to report in models)
 	declared map[string]bool
 	lockTerms []string
+	strlitLine map[string]int
 	witnessSort map[string]string
 	iters map[ssa.Value]*mapIter
 	lastIter *mapIter
@@ -412,6 +413,27 @@ func (vc *VC) query(o *Obligation) string {
 		b.WriteString(l)
 		b.WriteByte('\n')
 	}
+	// concrete prefix relation between the string literals of this VC
+	body := b.String()
+	if strings.Contains(body, "sprefix") {
+		type lit struct{ s, n string }
+		var lits []lit
+		for s, n := range vc.strlit {
+			if vc.strlitLine[n] < o.NLines {
+				lits = append(lits, lit{s, n})
+			}
+		}
+		sort.Slice(lits, func(i, j int) bool { return lits[i].n < lits[j].n })
+		for _, a := range lits {
+			for _, p := range lits {
+				if strings.HasPrefix(a.s, p.s) {
+					fmt.Fprintf(&b, "(assert (sprefix %s %s))\n", a.n, p.n)
+				} else {
+					fmt.Fprintf(&b, "(assert (not (sprefix %s %s)))\n", a.n, p.n)
+				}
+			}
+		}
+	}
 	b.WriteString("(assert " + o.PC + ")\n")
 	b.WriteString("(assert (not " + o.Goal + "))\n")
 	return b.String()
@@ -585,6 +607,10 @@ func (vc *VC) strLit(s string) string {
 	id := len(vc.strlit) + 1
 	name := fmt.Sprintf("strlit_%d", id)
 	vc.strlit[s] = name
+	if vc.strlitLine == nil {
+		vc.strlitLine = map[string]int{}
+	}
+	vc.strlitLine[name] = len(vc.lines)
 	// string literals get fixed negative ids so that they are pairwise distinct
 	// and distinct from every symbolic string that is constrained to be a literal.
 	vc.emit(fmt.Sprintf("(define-fun %s () Int (- %d)) ; %q", name, id, s))
